@@ -612,6 +612,11 @@ func TestC06_Errors(t *testing.T) {
 			if ins, err := crypto.NewBLSThresholdSignatureInspector(s.gpk, s.pks, bt, s.msg, s.tag); ins != nil || !crypto.IsInvalidInputsError(err) {
 				g.Fatalf("NewBLSThresholdSignatureInspector(threshold %d) = %v", bt, err)
 			}
+			// the participant constructor reports what its inspector part refuses (a matching private key does not help)
+			pme := g.Pick("participantIndex", n)
+			if p, err := crypto.NewBLSThresholdSignatureParticipant(s.gpk, s.pks, bt, pme, s.sks[pme], s.msg, s.tag); p != nil || !crypto.IsInvalidInputsError(err) {
+				g.Fatalf("NewBLSThresholdSignatureParticipant(threshold %d, index %d with its matching private key) = (%v, %v)", bt, pme, p != nil, err)
+			}
 			if ok, err := crypto.EnoughShares(0, 5); ok || !crypto.IsInvalidInputsError(err) {
 				g.Fatalf("EnoughShares(0, 5) = (%v, %v)", ok, err)
 			}
@@ -629,6 +634,15 @@ func TestC06_Errors(t *testing.T) {
 			}
 			if ins, err := crypto.NewBLSThresholdSignatureInspector(ecdsaKey(g).PublicKey(), s.pks, th, s.msg, s.tag); ins != nil || !crypto.IsNotBLSKeyError(err) {
 				g.Fatalf("NewBLSThresholdSignatureInspector with an ECDSA group key = %v", err)
+			}
+			{
+				pme := g.Pick("participantIndex", n)
+				other := (pme + 1) % n
+				bad := append([]crypto.PublicKey{}, s.pks...)
+				bad[other] = ecdsaKey(g).PublicKey()
+				if p, err := crypto.NewBLSThresholdSignatureParticipant(s.gpk, bad, th, pme, s.sks[pme], s.msg, s.tag); p != nil || !crypto.IsNotBLSKeyError(err) {
+					g.Fatalf("NewBLSThresholdSignatureParticipant with an ECDSA key among the other participants' share keys = (%v, %v)", p != nil, err)
+				}
 			}
 			if p, err := crypto.NewBLSThresholdSignatureParticipant(s.gpk, s.pks, th, 0, ecdsaKey(g), s.msg, s.tag); p != nil || !crypto.IsNotBLSKeyError(err) {
 				g.Fatalf("NewBLSThresholdSignatureParticipant with an ECDSA private key = %v", err)
